@@ -17,6 +17,8 @@ pub mod resolvers;
 pub mod response;
 pub mod schema;
 pub mod validation;
+#[cfg(apollo_rs_verif)]
+pub mod verif;
 
 pub use self::executable::ExecutableDocument;
 pub use self::name::InvalidNameError;
